@@ -841,7 +841,7 @@ def run(rep):
     # 2. operator sequences, slices, in super
     operator_cases(rep, thorough)
     # 3. random trees
-    ntrees = 12000 if thorough else 3000
+    ntrees = 50000 if thorough else 6000
     max_size = 80 if thorough else 25
     base_tokens = []
     for start in range(0, ntrees, 2000):
@@ -854,7 +854,7 @@ def run(rep):
                 if "toks" in d:
                     base_tokens.append(read_tokens(d["toks"]))
     # 4. malformed token lists
-    malformed_cases(rep, base_tokens, 40000 if thorough else 8000)
+    malformed_cases(rep, base_tokens, 150000 if thorough else 12000)
 
 
 def replay(r):
